@@ -288,6 +288,8 @@ fn deliver<C: Chan>(e: &'static Engine, workers: usize, senders: &'static [(char
     e.note(&fmt_list(&res));
 }
 
+static RX_GONE: std::sync::atomic::AtomicBool = std::sync::atomic::AtomicBool::new(false);
+
 /// the receiving side goes away: send must fail and return the value, queued values are dropped once
 fn rx_gone<C: Chan>(e: &'static Engine, workers: usize, senders: &'static [(char, usize)], rx_kind: char, rx_ops: &'static str) {
     let any_co = senders.iter().any(|s| s.0 == 'C') || rx_kind == 'C';
@@ -311,6 +313,7 @@ fn rx_gone<C: Chan>(e: &'static Engine, workers: usize, senders: &'static [(char
             let g = receive::<C>(e, &rx, rx_ops, false);
             results.lock().unwrap().0 = g;
             drop(rx);
+            RX_GONE.store(true, std::sync::atomic::Ordering::SeqCst);
         }));
     }
     let mut ids = vec![];
@@ -325,8 +328,14 @@ fn rx_gone<C: Chan>(e: &'static Engine, workers: usize, senders: &'static [(char
             let mut mine = vec![];
             for j in 0..n {
                 let id = (s * 10 + j + 1) as u32;
+                let gone_before = RX_GONE.load(std::sync::atomic::Ordering::SeqCst);
                 match C::send(&tx, Tracked::new(id)) {
-                    Ok(()) => mine.push((id, true)),
+                    Ok(()) => {
+                        if gone_before {
+                            e.fail("send_after_receiver_gone", &format!("send({}) returned Ok although the last Receiver had been dropped before the call", id));
+                        }
+                        mine.push((id, true))
+                    }
                     Err(v) => {
                         if v.id() != id {
                             e.fail("send_error_value", &format!("send({}) failed but handed back {}", id, v.id()));
